@@ -180,6 +180,9 @@ class NullAnalysis:
         tgt = prog.resolve(call)
         if tgt is not None and tgt.path in prog.accessors:
             return False
+        if tgt is not None and tgt.info.get('mir') and not tgt.is_closure and tgt.body.arg_count == len(call.args):
+            # the callee's own signature says what it may write (`self.height()` from a `&mut self` method hands out `&*self`)
+            return any((tgt.body.locals[i]['ty'] or '').startswith('&mut') for i in range(1, tgt.body.arg_count + 1))
         for a in call.args:
             if (a.ty or '').startswith('&mut'):
                 return True
